@@ -112,30 +112,60 @@ theorem expireProbe_probing (intfName : BList) (acc : Registry × List Event × 
   · exact Or.inl rfl
   · split <;> exact Or.inr rfl
 
+theorem expireProbe_active_other (intfName : BList) (acc : Registry × List Event × List BList) (name n : BList) (h : n ≠ name) :
+    alookup n (expireProbe intfName acc name).1.active = alookup n acc.1.active := by
+  unfold expireProbe
+  split
+  · rfl
+  · simp only []
+    split
+    · rfl
+    · simp only []
+      exact alookup_aset_ne _ _ _ _ h
+
 theorem handleExpiredProbes_frame (expired : List BList) (intfName : BList) (r : Registry) (n : BList)
     (hpn : KeysNodup r.probing) :
     KeysNodup (handleExpiredProbes expired intfName r).1.probing ∧
-    (n ∉ expired → alookup n (handleExpiredProbes expired intfName r).1.probing = alookup n r.probing) := by
+    (n ∉ expired → alookup n (handleExpiredProbes expired intfName r).1.probing = alookup n r.probing) ∧
+    (n ∉ expired → alookup n (handleExpiredProbes expired intfName r).1.active = alookup n r.active) := by
   unfold handleExpiredProbes
   have := foldl_inv
     (fun (acc : Registry × List Event × List BList) =>
-      KeysNodup acc.1.probing ∧ (n ∉ expired → alookup n acc.1.probing = alookup n r.probing))
-    (expireProbe intfName) expired (r, [], []) ⟨hpn, fun _ => rfl⟩
+      KeysNodup acc.1.probing ∧ (n ∉ expired → alookup n acc.1.probing = alookup n r.probing) ∧
+      (n ∉ expired → alookup n acc.1.active = alookup n r.active))
+    (expireProbe intfName) expired (r, [], []) ⟨hpn, fun _ => rfl, fun _ => rfl⟩
     (fun acc name hname hacc => by
-      rcases expireProbe_probing intfName acc name with h | h
-      · rw [h]; exact hacc
-      · rw [h]
-        refine ⟨hacc.1.aerase _, fun hn => ?_⟩
+      refine ⟨?_, ?_, ?_⟩
+      · rcases expireProbe_probing intfName acc name with h | h
+        · rw [h]; exact hacc.1
+        · rw [h]; exact hacc.1.aerase _
+      · intro hn
         have hne : n ≠ name := fun e => hn (e ▸ hname)
-        rw [alookup_aerase_ne _ _ _ hne]
-        exact hacc.2 hn)
+        rcases expireProbe_probing intfName acc name with h | h
+        · rw [h]; exact hacc.2.1 hn
+        · rw [h, alookup_aerase_ne _ _ _ hne]; exact hacc.2.1 hn
+      · intro hn
+        have hne : n ≠ name := fun e => hn (e ▸ hname)
+        rw [expireProbe_active_other intfName acc name n hne]
+        exact hacc.2.2 hn)
   exact this
 
 /-! ### one probe of one interface -/
 
-/-- the probe of `n` in the registry of interface index `idx` has these times -/
-def ProbeAt (s : State) (idx : Nat) (n : BList) (st nx : Nat) (R : List RR) : Prop :=
-  ∃ p, alookup n (s.registry idx).probing = some p ∧ p.start = st ∧ p.next = nx ∧ ∀ a ∈ R, a ∈ p.records
+/-- what is known to travel with the watched probe: records it holds, services that wait for it,
+    and the `active` entry of its name (which only the end of the probe changes) -/
+structure Cargo where
+  recs : List RR
+  waits : List BList := []
+  act : Option (List RR) := none
+
+/-- what a probe carries itself, with the `active` entry of its name -/
+def Probe.cargo (p : Probe) (A : Option (List RR)) : Cargo := ⟨p.records, p.waiting, A⟩
+
+/-- the probe of `n` in the registry of interface index `idx` has these times and carries at least `R` -/
+def ProbeAt (s : State) (idx : Nat) (n : BList) (st nx : Nat) (R : Cargo) : Prop :=
+  ∃ p, alookup n (s.registry idx).probing = some p ∧ p.start = st ∧ p.next = nx ∧ (∀ a ∈ R.recs, a ∈ p.records) ∧
+    ∀ w ∈ R.waits, w ∈ p.waiting
 
 /-- a probe query for `n` on interface index `idx`: a multicast query packet with the question `ANY n` -/
 def asksFor (idx : Nat) (n : BList) : Out → Bool
@@ -149,18 +179,18 @@ theorem registry_congr {s s' : State} (h : s'.registries = s.registries) (idx : 
 theorem probingDoneReg_keeps (r : Registry) (a : RR) (svc : BList) (t : Nat) (n : BList) (q : Probe)
     (hq : alookup n r.probing = some q) :
     ∃ p, alookup n (r.probingDoneReg a svc t).probing = some p ∧ p.start = q.start ∧ p.next = q.next ∧
-      ∀ x ∈ q.records, x ∈ p.records := by
+      (∀ x ∈ q.records, x ∈ p.records) ∧ ∀ w ∈ q.waiting, w ∈ p.waiting := by
   unfold Registry.probingDoneReg
   split
-  · exact ⟨q, hq, rfl, rfl, fun _ h => h⟩
+  · exact ⟨q, hq, rfl, rfl, fun _ h => h, fun _ h => h⟩
   · by_cases e : n = a.getName
     · subst e
       simp only [Registry.probeInsert, alookup_aset_self, hq, Option.getD_some]
       refine ⟨_, rfl, ?_⟩
       split
-      · exact ⟨rfl, rfl, fun _ h => h⟩
-      · exact ⟨rfl, rfl, fun x h => (mem_insertRR a x _).mpr (Or.inr h)⟩
-    · refine ⟨q, ?_, rfl, rfl, fun _ h => h⟩
+      · exact ⟨rfl, rfl, fun _ h => h, fun w h => (mem_sinsert svc w _).mpr (Or.inr h)⟩
+      · exact ⟨rfl, rfl, fun x h => (mem_insertRR a x _).mpr (Or.inr h), fun w h => (mem_sinsert svc w _).mpr (Or.inr h)⟩
+    · refine ⟨q, ?_, rfl, rfl, fun _ h => h, fun _ h => h⟩
       simp only [Registry.probeInsert]
       rw [alookup_aset_ne _ _ _ _ e]
       exact hq
@@ -168,27 +198,29 @@ theorem probingDoneReg_keeps (r : Registry) (a : RR) (svc : BList) (t : Nat) (n 
 theorem prepareAnnounceReg_keeps (s : Service) (i : MyIntf) (r : Registry) (v4 : Bool) (now j : Nat) (n : BList) (q : Probe)
     (hq : alookup n r.probing = some q) :
     ∃ p, alookup n (prepareAnnounceReg s i r v4 now j).probing = some p ∧ p.start = q.start ∧ p.next = q.next ∧
-      ∀ x ∈ q.records, x ∈ p.records := by
+      (∀ x ∈ q.records, x ∈ p.records) ∧ ∀ w ∈ q.waiting, w ∈ p.waiting := by
   unfold prepareAnnounceReg
   split
-  · exact ⟨q, hq, rfl, rfl, fun _ h => h⟩
+  · exact ⟨q, hq, rfl, rfl, fun _ h => h, fun _ h => h⟩
   · split
-    · exact ⟨q, hq, rfl, rfl, fun _ h => h⟩
+    · exact ⟨q, hq, rfl, rfl, fun _ h => h, fun _ h => h⟩
     · exact foldl_inv (fun (b : Registry) => ∃ p, alookup n b.probing = some p ∧ p.start = q.start ∧ p.next = q.next ∧
-          ∀ x ∈ q.records, x ∈ p.records) _ _ r ⟨q, hq, rfl, rfl, fun _ h => h⟩
-        (fun b a _ ⟨p, hp, h1, h2, h3⟩ => by
-          obtain ⟨p', hp', h1', h2', h3'⟩ := probingDoneReg_keeps b a s.fullname (now + j) n p hp
-          exact ⟨p', hp', h1'.trans h1, h2'.trans h2, fun x hx => h3' x (h3 x hx)⟩)
+          (∀ x ∈ q.records, x ∈ p.records) ∧ ∀ w ∈ q.waiting, w ∈ p.waiting) _ _ r ⟨q, hq, rfl, rfl, fun _ h => h, fun _ h => h⟩
+        (fun b a _ ⟨p, hp, h1, h2, h3, h4⟩ => by
+          obtain ⟨p', hp', h1', h2', h3', h4'⟩ := probingDoneReg_keeps b a s.fullname (now + j) n p hp
+          exact ⟨p', hp', h1'.trans h1, h2'.trans h2, fun x hx => h3' x (h3 x hx), fun w hw => h4' w (h4 w hw)⟩)
 
 /-- the two calls of `announce_service_on_intf` keep an existing probe: times and records -/
-theorem announce_pair_probe (svc : Service) (i : MyIntf) (r0 : Registry) (now j : Nat) (n : BList) (st nx : Nat) (R : List RR)
-    (h : ∃ p, alookup n r0.probing = some p ∧ p.start = st ∧ p.next = nx ∧ ∀ a ∈ R, a ∈ p.records) :
+theorem announce_pair_probe (svc : Service) (i : MyIntf) (r0 : Registry) (now j : Nat) (n : BList) (st nx : Nat) (R : Cargo)
+    (h : ∃ p, alookup n r0.probing = some p ∧ p.start = st ∧ p.next = nx ∧ (∀ a ∈ R.recs, a ∈ p.records) ∧
+      ∀ w ∈ R.waits, w ∈ p.waiting) :
     ∃ p, alookup n (prepareAnnounceReg svc i (prepareAnnounceReg svc i r0 true now j) false now j).probing = some p ∧
-      p.start = st ∧ p.next = nx ∧ ∀ a ∈ R, a ∈ p.records := by
-  obtain ⟨p, hp, h1, h2, h3⟩ := h
-  obtain ⟨p1, hp1, a1, a2, a3⟩ := prepareAnnounceReg_keeps svc i r0 true now j n p hp
-  obtain ⟨p2, hp2, b1, b2, b3⟩ := prepareAnnounceReg_keeps svc i (prepareAnnounceReg svc i r0 true now j) false now j n p1 hp1
-  exact ⟨p2, hp2, b1.trans (a1.trans h1), b2.trans (a2.trans h2), fun a ha => b3 a (a3 a (h3 a ha))⟩
+      p.start = st ∧ p.next = nx ∧ (∀ a ∈ R.recs, a ∈ p.records) ∧ ∀ w ∈ R.waits, w ∈ p.waiting := by
+  obtain ⟨p, hp, h1, h2, h3, h4⟩ := h
+  obtain ⟨p1, hp1, a1, a2, a3, a4⟩ := prepareAnnounceReg_keeps svc i r0 true now j n p hp
+  obtain ⟨p2, hp2, b1, b2, b3, b4⟩ := prepareAnnounceReg_keeps svc i (prepareAnnounceReg svc i r0 true now j) false now j n p1 hp1
+  exact ⟨p2, hp2, b1.trans (a1.trans h1), b2.trans (a2.trans h2), fun a ha => b3 a (a3 a (h3 a ha)),
+    fun w hw => b4 w (a4 w (h4 w hw))⟩
 
 theorem announce_pair_pn (svc : Service) (i : MyIntf) {r0 : Registry} (h : KeysNodup r0.probing) (now j : Nat) :
     KeysNodup (prepareAnnounceReg svc i (prepareAnnounceReg svc i r0 true now j) false now j).probing :=
@@ -196,23 +228,24 @@ theorem announce_pair_pn (svc : Service) (i : MyIntf) {r0 : Registry} (h : KeysN
 
 /-- what is watched across the steps of an idle iteration: the probe's times, unique keys and
     no renames in that registry, the interfaces -/
-structure Watch (s : State) (idx : Nat) (n : BList) (st nx : Nat) (R : List RR) : Prop where
+structure Watch (s : State) (idx : Nat) (n : BList) (st nx : Nat) (R : Cargo) : Prop where
   probe : ProbeAt s idx n st nx R
   pn : KeysNodup (s.registry idx).probing
   noRen : NoRen (s.registry idx)
+  act : alookup n (s.registry idx).active = R.act
 
-theorem Watch.setRegistry_other {s : State} {idx : Nat} {n : BList} {st nx : Nat} {R : List RR} (h : Watch s idx n st nx R)
+theorem Watch.setRegistry_other {s : State} {idx : Nat} {n : BList} {st nx : Nat} {R : Cargo} (h : Watch s idx n st nx R)
     (k : Nat) (r : Registry) (hk : k ≠ idx) : Watch (s.setRegistry k r) idx n st nx R := by
   have e : (s.setRegistry k r).registry idx = s.registry idx := registry_setRegistry_ne s k idx r (Ne.symm hk)
-  exact ⟨by unfold ProbeAt; rw [e]; exact h.probe, by rw [e]; exact h.pn, by rw [e]; exact h.noRen⟩
+  exact ⟨by unfold ProbeAt; rw [e]; exact h.probe, by rw [e]; exact h.pn, by rw [e]; exact h.noRen, by rw [e]; exact h.act⟩
 
-theorem Watch.congr {s s' : State} {idx : Nat} {n : BList} {st nx : Nat} {R : List RR} (h : Watch s idx n st nx R)
+theorem Watch.congr {s s' : State} {idx : Nat} {n : BList} {st nx : Nat} {R : Cargo} (h : Watch s idx n st nx R)
     (hr : s'.registries = s.registries) : Watch s' idx n st nx R := by
   have e := registry_congr hr idx
-  exact ⟨by unfold ProbeAt; rw [e]; exact h.probe, by rw [e]; exact h.pn, by rw [e]; exact h.noRen⟩
+  exact ⟨by unfold ProbeAt; rw [e]; exact h.probe, by rw [e]; exact h.pn, by rw [e]; exact h.noRen, by rw [e]; exact h.act⟩
 
 /-- announcing some service on some interface keeps the watched probe -/
-theorem Watch.announce_pair {s : State} {idx : Nat} {n : BList} {st nx : Nat} {R : List RR} (h : Watch s idx n st nx R)
+theorem Watch.announce_pair {s : State} {idx : Nat} {n : BList} {st nx : Nat} {R : Cargo} (h : Watch s idx n st nx R)
     (svc : Service) (i : MyIntf) (now j : Nat) :
     Watch (s.setRegistry i.index
       (prepareAnnounceReg svc i (prepareAnnounceReg svc i (s.registry i.index) true now j) false now j)) idx n st nx R := by
@@ -221,12 +254,14 @@ theorem Watch.announce_pair {s : State} {idx : Nat} {n : BList} {st nx : Nat} {R
         (prepareAnnounceReg svc i (prepareAnnounceReg svc i (s.registry i.index) true now j) false now j)).registry idx =
         prepareAnnounceReg svc i (prepareAnnounceReg svc i (s.registry i.index) true now j) false now j := by
       rw [← e]; exact registry_setRegistry_self _ _ _
-    refine ⟨?_, ?_, ?_⟩
+    refine ⟨?_, ?_, ?_, ?_⟩
     · unfold ProbeAt
       rw [er]
       exact announce_pair_probe svc i _ now j n st nx R (by rw [e]; exact h.probe)
     · rw [er]; exact announce_pair_pn svc i (by rw [e]; exact h.pn) now j
     · rw [er]; exact announce_pair_noRen svc i (by rw [e]; exact h.noRen) now j
+    · rw [er, (prepareAnnounceReg_active svc i _ false now j).1, (prepareAnnounceReg_active svc i _ true now j).1, e]
+      exact h.act
   · exact h.setRegistry_other _ _ e
 
 /-! ### outputs that are not probe queries -/
@@ -260,7 +295,7 @@ theorem notify_not_asks (s : State) (e : Event) (idx : Nat) (n : BList) : ∀ o 
 
 /-- `wakeService` keeps the watched probe -/
 theorem wakeService_keeps (now j : Nat) (i : MyIntf) (acc : State × List Out) (name : BList) (idx : Nat) (n : BList)
-    (st nx : Nat) (R : List RR) (h : Watch acc.1 idx n st nx R) : Watch (wakeService now j i acc name).1 idx n st nx R := by
+    (st nx : Nat) (R : Cargo) (h : Watch acc.1 idx n st nx R) : Watch (wakeService now j i acc name).1 idx n st nx R := by
   unfold wakeService
   simp only []
   split
@@ -325,7 +360,7 @@ theorem foldl_wake_mono (now j : Nat) (i : MyIntf) (names : List BList) (acc : S
   foldl_inv (fun a => o ∈ a.2) _ _ _ h (fun a nm _ ha => wakeService_mono now j i a nm o ha)
 
 theorem foldl_wake_keeps (now j : Nat) (i : MyIntf) (names : List BList) (acc : State × List Out) (idx : Nat) (n : BList)
-    (st nx : Nat) (R : List RR) (h : Watch acc.1 idx n st nx R) :
+    (st nx : Nat) (R : Cargo) (h : Watch acc.1 idx n st nx R) :
     Watch (names.foldl (wakeService now j i) acc).1 idx n st nx R :=
   foldl_inv (fun (a : State × List Out) => Watch a.1 idx n st nx R) _ _ _ h
     (fun a nm _ ha => wakeService_keeps now j i a nm idx n st nx R ha)
@@ -377,7 +412,7 @@ theorem events_not_ask (s : State) (evs : List Event) (idx : Nat) (n : BList) :
 
 /-- the step of `probing_handler` for ANOTHER interface index leaves the watched probe alone -/
 theorem probingOnIntf_other_keeps (now j : Nat) (acc : State × List Out) (i' : MyIntf) (idx : Nat) (n : BList) (st nx : Nat)
-    (R : List RR) (hne : i'.index ≠ idx) (h : Watch acc.1 idx n st nx R) : Watch (probingOnIntf now j acc i').1 idx n st nx R := by
+    (R : Cargo) (hne : i'.index ≠ idx) (h : Watch acc.1 idx n st nx R) : Watch (probingOnIntf now j acc i').1 idx n st nx R := by
   unfold probingOnIntf
   simp only []
   split
@@ -408,7 +443,8 @@ theorem probe_survives {r : Registry} {n : BList} {p : Probe} (now : Nat) (intfN
     (hl : alookup n r.probing = some p) (hpn : KeysNodup r.probing) (hnr : NoRen r) (hact : p.action now ≠ .expire) :
     alookup n (handleExpiredProbes (checkProbing r now).expired intfName (checkProbing r now).reg).1.probing = some (p.step now) ∧
     KeysNodup (handleExpiredProbes (checkProbing r now).expired intfName (checkProbing r now).reg).1.probing ∧
-    NoRen (handleExpiredProbes (checkProbing r now).expired intfName (checkProbing r now).reg).1 := by
+    NoRen (handleExpiredProbes (checkProbing r now).expired intfName (checkProbing r now).reg).1 ∧
+    alookup n (handleExpiredProbes (checkProbing r now).expired intfName (checkProbing r now).reg).1.active = alookup n r.active := by
   have hnotexp : n ∉ (checkProbing r now).expired := by
     intro hin
     simp only [checkProbing, List.mem_map, List.mem_filter] at hin
@@ -420,9 +456,9 @@ theorem probe_survives {r : Registry} {n : BList} {p : Probe} (now : Nat) (intfN
     cases this
     exact hact (by simpa using ha)
   have hf := handleExpiredProbes_frame (checkProbing r now).expired intfName (checkProbing r now).reg n (checkProbing_pn hpn now)
-  refine ⟨?_, hf.1, (handleExpiredProbes_spec _ intfName _ (checkProbing_noRen hnr now)).1⟩
+  refine ⟨?_, hf.1, (handleExpiredProbes_spec _ intfName _ (checkProbing_noRen hnr now)).1, hf.2.2 hnotexp⟩
   have hm := alookup_mapVal n (fun _ p => Probe.step p now) r.probing
-  rw [hf.2 hnotexp, checkProbing_probing, hm, hl]
+  rw [hf.2.1 hnotexp, checkProbing_probing, hm, hl]
   rfl
 
 /-- is `(n, ANY)` among the questions of `check_probing`? exactly when the probe of `n` sends -/
@@ -450,7 +486,8 @@ theorem probe_step_times (p : Probe) (now : Nat) :
 theorem probingOnIntf_self (now j : Nat) (acc : State × List Out) (i : MyIntf) (n : BList) (p : Probe)
     (hl : alookup n (acc.1.registry i.index).probing = some p) (hpn : KeysNodup (acc.1.registry i.index).probing)
     (hnr : NoRen (acc.1.registry i.index)) (hact : p.action now ≠ .expire) :
-    Watch (probingOnIntf now j acc i).1 i.index n p.start (if p.action now = .send then now + 250 else p.next) p.records ∧
+    Watch (probingOnIntf now j acc i).1 i.index n p.start (if p.action now = .send then now + 250 else p.next)
+      (p.cargo (alookup n (acc.1.registry i.index).active)) ∧
     (p.action now = .idle → ∀ o ∈ (probingOnIntf now j acc i).2, o ∈ acc.2 ∨ asksFor i.index n o = false) ∧
     (p.action now = .send → ∀ v4, i.hasFamily v4 = true → ∃ pkt, Out.send i.index v4 none pkt ∈ (probingOnIntf now j acc i).2 ∧
       pkt.flags = 0 ∧ (n, TYPE_ANY) ∈ pkt.questions ∧ ∀ a ∈ p.records, a ∈ pkt.authorities) := by
@@ -461,20 +498,21 @@ theorem probingOnIntf_self (now j : Nat) (acc : State × List Out) (i : MyIntf) 
     simp [alookup] at hl
   | some r =>
     have hr : acc.1.registry i.index = r := registry_of_lookup hreg
-    rw [hr] at hl hpn hnr
-    obtain ⟨hs1, hs2, hs3⟩ := probe_survives now i.name hl hpn hnr hact
+    rw [hr] at hl hpn hnr ⊢
+    obtain ⟨hs1, hs2, hs3, hs4⟩ := probe_survives now i.name hl hpn hnr hact
     obtain ⟨ht1, ht2⟩ := probe_step_times p now
     have hw : Watch ({ (acc.1.setRegistry i.index
         (handleExpiredProbes (checkProbing r now).expired i.name (checkProbing r now).reg).1) with
         timers := acc.1.timers ++ (checkProbing r now).timers } : State) i.index n p.start
-        (if p.action now = .send then now + 250 else p.next) p.records := by
+        (if p.action now = .send then now + 250 else p.next) (p.cargo (alookup n r.active)) := by
       have e : ({ (acc.1.setRegistry i.index
           (handleExpiredProbes (checkProbing r now).expired i.name (checkProbing r now).reg).1) with
           timers := acc.1.timers ++ (checkProbing r now).timers } : State).registry i.index =
           (handleExpiredProbes (checkProbing r now).expired i.name (checkProbing r now).reg).1 :=
         registry_setRegistry_self _ _ _
-      exact ⟨⟨p.step now, by rw [e]; exact hs1, ht1, ht2, fun a h => by rw [Probe.step_records]; exact h⟩,
-        by rw [e]; exact hs2, by rw [e]; exact hs3⟩
+      exact ⟨⟨p.step now, by rw [e]; exact hs1, ht1, ht2, fun a h => by rw [Probe.step_records]; exact h,
+          fun w h => by unfold Probe.step; split <;> exact h⟩,
+        by rw [e]; exact hs2, by rw [e]; exact hs3, by rw [e]; exact hs4⟩
     unfold probingOnIntf
     simp only [hreg]
     refine ⟨foldl_wake_keeps now j i _ (_, _) i.index n _ _ _ hw, ?_, ?_⟩
@@ -508,9 +546,9 @@ theorem probingOnIntf_self (now j : Nat) (acc : State × List Out) (i : MyIntf) 
 
 /-! ### `probing_handler` as a whole -/
 
-theorem Watch.of_registry_eq {s s' : State} {idx : Nat} {n : BList} {st nx : Nat} {R : List RR} (h : Watch s idx n st nx R)
+theorem Watch.of_registry_eq {s s' : State} {idx : Nat} {n : BList} {st nx : Nat} {R : Cargo} (h : Watch s idx n st nx R)
     (e : s'.registry idx = s.registry idx) : Watch s' idx n st nx R :=
-  ⟨by unfold ProbeAt; rw [e]; exact h.probe, by rw [e]; exact h.pn, by rw [e]; exact h.noRen⟩
+  ⟨by unfold ProbeAt; rw [e]; exact h.probe, by rw [e]; exact h.pn, by rw [e]; exact h.noRen, by rw [e]; exact h.act⟩
 
 theorem wakeService_registry_other (now j : Nat) (i : MyIntf) (acc : State × List Out) (name : BList) (idx : Nat)
     (h : i.index ≠ idx) : (wakeService now j i acc name).1.registry idx = acc.1.registry idx := by
@@ -553,7 +591,8 @@ theorem probingHandler_frame (s : State) (now j : Nat) :
 theorem probingHandler_probe (s : State) (now j : Nat) (i : MyIntf) (l1 l2 : List MyIntf) (hi : IntfsOk s i l1 l2)
     (n : BList) (p : Probe) (hl : alookup n (s.registry i.index).probing = some p)
     (hpn : KeysNodup (s.registry i.index).probing) (hnr : NoRen (s.registry i.index)) (hact : p.action now ≠ .expire) :
-    Watch (probingHandler s now j).1 i.index n p.start (if p.action now = .send then now + 250 else p.next) p.records ∧
+    Watch (probingHandler s now j).1 i.index n p.start (if p.action now = .send then now + 250 else p.next)
+      (p.cargo (alookup n (s.registry i.index).active)) ∧
     (p.action now = .idle → ∀ o ∈ (probingHandler s now j).2, asksFor i.index n o = false) ∧
     (p.action now = .send → ∀ v4, i.hasFamily v4 = true → ∃ pkt, Out.send i.index v4 none pkt ∈ (probingHandler s now j).2 ∧
       pkt.flags = 0 ∧ (n, TYPE_ANY) ∈ pkt.questions ∧ ∀ a ∈ p.records, a ∈ pkt.authorities) := by
@@ -571,9 +610,11 @@ theorem probingHandler_probe (s : State) (now j : Nat) (i : MyIntf) (l1 l2 : Lis
   -- phase 2: `i` itself
   obtain ⟨hw2, hidle2, hsend2⟩ := probingOnIntf_self now j (l1.foldl (probingOnIntf now j) (s, [])) i n p
     (by rw [hr1]; exact hl) (by rw [hr1]; exact hpn) (by rw [hr1]; exact hnr) hact
+  rw [hr1] at hw2
   -- phase 3: the interfaces after `i`
   have h3 := foldl_inv (fun (a : State × List Out) =>
-      Watch a.1 i.index n p.start (if p.action now = .send then now + 250 else p.next) p.records ∧
+      Watch a.1 i.index n p.start (if p.action now = .send then now + 250 else p.next)
+        (p.cargo (alookup n (s.registry i.index).active)) ∧
       (∀ o ∈ a.2, o ∈ (probingOnIntf now j (l1.foldl (probingOnIntf now j) (s, [])) i).2 ∨ asksFor i.index n o = false) ∧
       (∀ o ∈ (probingOnIntf now j (l1.foldl (probingOnIntf now j) (s, [])) i).2, o ∈ a.2))
     (probingOnIntf now j) l2 (probingOnIntf now j (l1.foldl (probingOnIntf now j) (s, [])) i)
@@ -733,7 +774,7 @@ theorem probingHandler_probe_end (s : State) (now j : Nat) (i : MyIntf) (l1 l2 :
 def RerunsOk (s : State) : Prop := ∀ t p k v, ReRun.unregisterResend t p k v ∈ s.reruns → p.flags ≠ 0
 
 theorem execRegisterResend_keeps (s : State) (now j : Nat) (fullname : BList) (ifIdx : Nat) (idx : Nat) (n : BList)
-    (st nx : Nat) (R : List RR) (h : Watch s idx n st nx R) :
+    (st nx : Nat) (R : Cargo) (h : Watch s idx n st nx R) :
     Watch (execRegisterResend s now j fullname ifIdx).1 idx n st nx R ∧
     (∀ o ∈ (execRegisterResend s now j fullname ifIdx).2, asksFor idx n o = false) ∧
     (execRegisterResend s now j fullname ifIdx).1.intfs = s.intfs ∧
@@ -758,7 +799,7 @@ theorem execRegisterResend_keeps (s : State) (now j : Nat) (fullname : BList) (i
     · exact ⟨hw, fun _ h => by simp at h, rfl, rfl, rfl⟩
   · exact ⟨h, fun _ h => by simp at h, rfl, rfl, rfl⟩
 
-theorem execRerun_keeps (now j : Nat) (acc : State × List Out) (r : ReRun) (idx : Nat) (n : BList) (st nx : Nat) (R : List RR)
+theorem execRerun_keeps (now j : Nat) (acc : State × List Out) (r : ReRun) (idx : Nat) (n : BList) (st nx : Nat) (R : Cargo)
     (h : Watch acc.1 idx n st nx R) (ho : ∀ o ∈ acc.2, asksFor idx n o = false)
     (hr : ∀ t p k v, r = .unregisterResend t p k v → p.flags ≠ 0) :
     Watch (execRerun now j acc r).1 idx n st nx R ∧ (∀ o ∈ (execRerun now j acc r).2, asksFor idx n o = false) ∧
@@ -789,7 +830,7 @@ theorem execRerun_keeps (now j : Nat) (acc : State × List Out) (r : ReRun) (idx
         · simp at hom
       · simp at hom
 
-theorem runReruns_keeps (s : State) (now j : Nat) (idx : Nat) (n : BList) (st nx : Nat) (R : List RR)
+theorem runReruns_keeps (s : State) (now j : Nat) (idx : Nat) (n : BList) (st nx : Nat) (R : Cargo)
     (h : Watch s idx n st nx R) (hr : RerunsOk s) :
     Watch (runReruns s now j).1 idx n st nx R ∧ (∀ o ∈ (runReruns s now j).2, asksFor idx n o = false) ∧
     (runReruns s now j).1.intfs = s.intfs ∧ (runReruns s now j).1.stopped = s.stopped ∧ RerunsOk (runReruns s now j).1 := by
@@ -890,16 +931,16 @@ theorem runIpCheck_registries (s : State) (now : Nat) :
 
 /-- the daemon runs, interface `i` is there once, the probe of `n` on `i` has start `st`,
     next send `nx` and holds the records `R`, and no queued goodbye repeat is a query -/
-structure Good (s : State) (i : MyIntf) (l1 l2 : List MyIntf) (n : BList) (st nx : Nat) (R : List RR) : Prop where
+structure Good (s : State) (i : MyIntf) (l1 l2 : List MyIntf) (n : BList) (st nx : Nat) (R : Cargo) : Prop where
   running : s.stopped = false
   intfs : IntfsOk s i l1 l2
   watch : Watch s i.index n st nx R
   reruns : RerunsOk s
 
-theorem Watch.weaken {s : State} {idx : Nat} {n : BList} {st nx : Nat} {R R' : List RR} (h : Watch s idx n st nx R')
-    (hsub : ∀ a ∈ R, a ∈ R') : Watch s idx n st nx R := by
-  obtain ⟨p, hp, h1, h2, h3⟩ := h.probe
-  exact ⟨⟨p, hp, h1, h2, fun a ha => h3 a (hsub a ha)⟩, h.pn, h.noRen⟩
+theorem Watch.weaken {s : State} {idx : Nat} {n : BList} {st nx : Nat} {R R' : Cargo} (h : Watch s idx n st nx R')
+    (hsub : ∀ a ∈ R.recs, a ∈ R'.recs) (hwsub : ∀ w ∈ R.waits, w ∈ R'.waits) (hact : R.act = R'.act) : Watch s idx n st nx R := by
+  obtain ⟨p, hp, h1, h2, h3, h4⟩ := h.probe
+  exact ⟨⟨p, hp, h1, h2, fun a ha => h3 a (hsub a ha), fun w hw => h4 w (hwsub w hw)⟩, h.pn, h.noRen, h.act.trans hact.symm⟩
 
 /-- did this iteration send a probe query for `n` on the interface? -/
 def asked (idx : Nat) (n : BList) (outs : List Out) : Bool := outs.any (asksFor idx n)
@@ -908,17 +949,17 @@ def asked (idx : Nat) (n : BList) (outs : List Out) : Bool := outs.any (asksFor 
     the probe query for `n` leaves on `i` - over every family of the interface, with `ANY n` among
     the questions and all of `R` among the authorities - exactly if `now ≥ nx`; then `nx` becomes
     `now + 250`; otherwise nothing about the probe changes. -/
-theorem loopTail_step (s : State) (i : MyIntf) (l1 l2 : List MyIntf) (n : BList) (st nx : Nat) (R : List RR) (now j : Nat)
+theorem loopTail_step (s : State) (i : MyIntf) (l1 l2 : List MyIntf) (n : BList) (st nx : Nat) (R : Cargo) (now j : Nat)
     (h : Good s i l1 l2 n st nx R) (hlive : now < nx ∨ now < st + 750) :
     Good (loopTail s now j).1 i l1 l2 n st (if now ≥ nx then now + 250 else nx) R ∧
     (now < nx → asked i.index n (loopTail s now j).2 = false) ∧
     (now ≥ nx → ∀ v4, i.hasFamily v4 = true → ∃ pkt, Out.send i.index v4 none pkt ∈ (loopTail s now j).2 ∧
-      pkt.flags = 0 ∧ (n, TYPE_ANY) ∈ pkt.questions ∧ ∀ a ∈ R, a ∈ pkt.authorities) := by
+      pkt.flags = 0 ∧ (n, TYPE_ANY) ∈ pkt.questions ∧ ∀ a ∈ R.recs, a ∈ pkt.authorities) := by
   unfold loopTail
   -- after the re-runs
   obtain ⟨hw4, ho4, hi4, hs4, hr4⟩ := runReruns_keeps s now j i.index n st nx R
     h.watch h.reruns
-  obtain ⟨p, hp, hst, hnx, hrec⟩ := hw4.probe
+  obtain ⟨p, hp, hst, hnx, hrec, hwait⟩ := hw4.probe
   have hintfs4 : IntfsOk (runReruns s now j).1 i l1 l2 :=
     ⟨hi4.trans h.intfs.split, h.intfs.other⟩
   have hact : p.action now ≠ .expire := by
@@ -944,7 +985,7 @@ theorem loopTail_step (s : State) (i : MyIntf) (l1 l2 : List MyIntf) (n : BList)
   · rw [e3, hf5s, hs4]; exact h.running
   · exact ⟨by rw [e2, hf5i]; exact hintfs4.split, h.intfs.other⟩
   · rw [← hnext, ← hst]
-    exact (hw5.congr e1).weaken hrec
+    exact (hw5.congr e1).weaken hrec hwait hw4.act.symm
   · intro t pk k v hm
     rw [e4] at hm
     exact probingHandler_rerunsOk _ now j hr4 t pk k v hm
@@ -969,26 +1010,26 @@ theorem loopTail_step (s : State) (i : MyIntf) (l1 l2 : List MyIntf) (n : BList)
     the probe query for `n` leaves on `i` - over every family of the interface, with `ANY n` among
     the questions and all of `R` among the authorities - exactly if `now ≥ nx`; then `nx` becomes
     `now + 250`; otherwise nothing about the probe changes. -/
-theorem iter_idle_step (s : State) (i : MyIntf) (l1 l2 : List MyIntf) (n : BList) (st nx : Nat) (R : List RR) (now j : Nat)
+theorem iter_idle_step (s : State) (i : MyIntf) (l1 l2 : List MyIntf) (n : BList) (st nx : Nat) (R : Cargo) (now j : Nat)
     (h : Good s i l1 l2 n st nx R) (hlive : now < nx ∨ now < st + 750) :
     Good (iter s (idle now j)).1 i l1 l2 n st (if now ≥ nx then now + 250 else nx) R ∧
     (now < nx → asked i.index n (iter s (idle now j)).2 = false) ∧
     (now ≥ nx → ∀ v4, i.hasFamily v4 = true → ∃ pkt, Out.send i.index v4 none pkt ∈ (iter s (idle now j)).2 ∧
-      pkt.flags = 0 ∧ (n, TYPE_ANY) ∈ pkt.questions ∧ ∀ a ∈ R, a ∈ pkt.authorities) := by
+      pkt.flags = 0 ∧ (n, TYPE_ANY) ∈ pkt.questions ∧ ∀ a ∈ R.recs, a ∈ pkt.authorities) := by
   rw [iter_idle s now j h.running]
   exact loopTail_step _ i l1 l2 n st nx R now j
     ⟨h.running, ⟨h.intfs.split, h.intfs.other⟩, h.watch.congr rfl, h.reruns⟩ hlive
 
 /-- the tail of the iteration in which the probe ends (`now ≥ nx`, `now ≥ st + 750`): no probe query
     for `n`, and every record of `R` filed under `n` is active afterwards -/
-theorem loopTail_end (s : State) (i : MyIntf) (l1 l2 : List MyIntf) (n : BList) (st nx : Nat) (R : List RR) (now j : Nat)
+theorem loopTail_end (s : State) (i : MyIntf) (l1 l2 : List MyIntf) (n : BList) (st nx : Nat) (R : Cargo) (now j : Nat)
     (h : Good s i l1 l2 n st nx R) (h1 : now ≥ nx) (h2 : now ≥ st + 750) :
     asked i.index n (loopTail s now j).2 = false ∧
-    ∀ a ∈ R, a.getName = n → ((loopTail s now j).1.registry i.index).isActive a = true := by
+    ∀ a ∈ R.recs, a.getName = n → ((loopTail s now j).1.registry i.index).isActive a = true := by
   unfold loopTail
   obtain ⟨hw4, ho4, hi4, hs4, hr4⟩ := runReruns_keeps s now j i.index n st nx R
     h.watch h.reruns
-  obtain ⟨p, hp, hst, hnx, hrec⟩ := hw4.probe
+  obtain ⟨p, hp, hst, hnx, hrec, hwait⟩ := hw4.probe
   have hintfs4 : IntfsOk (runReruns s now j).1 i l1 l2 :=
     ⟨hi4.trans h.intfs.split, h.intfs.other⟩
   have hact : p.action now = .expire := by
@@ -1007,10 +1048,10 @@ theorem loopTail_end (s : State) (i : MyIntf) (l1 l2 : List MyIntf) (n : BList) 
 
 /-- the idle iteration in which the probe ends (`now ≥ nx`, `now ≥ st + 750`): no probe query
     for `n`, and every record of `R` filed under `n` is active afterwards -/
-theorem iter_idle_end (s : State) (i : MyIntf) (l1 l2 : List MyIntf) (n : BList) (st nx : Nat) (R : List RR) (now j : Nat)
+theorem iter_idle_end (s : State) (i : MyIntf) (l1 l2 : List MyIntf) (n : BList) (st nx : Nat) (R : Cargo) (now j : Nat)
     (h : Good s i l1 l2 n st nx R) (h1 : now ≥ nx) (h2 : now ≥ st + 750) :
     asked i.index n (iter s (idle now j)).2 = false ∧
-    ∀ a ∈ R, a.getName = n → ((iter s (idle now j)).1.registry i.index).isActive a = true := by
+    ∀ a ∈ R.recs, a.getName = n → ((iter s (idle now j)).1.registry i.index).isActive a = true := by
   rw [iter_idle s now j h.running]
   exact loopTail_end _ i l1 l2 n st nx R now j
     ⟨h.running, ⟨h.intfs.split, h.intfs.other⟩, h.watch.congr rfl, h.reruns⟩ h1 h2
@@ -1035,7 +1076,7 @@ theorem askTimes_append (idx : Nat) (n : BList) (a b : List (Nat × List Out)) :
   simp [askTimes]
 
 /-- iterations before the probe is due change nothing and ask nothing -/
-theorem idleRun_skip (j : Nat) (i : MyIntf) (l1 l2 : List MyIntf) (n : BList) (st nx : Nat) (R : List RR) :
+theorem idleRun_skip (j : Nat) (i : MyIntf) (l1 l2 : List MyIntf) (n : BList) (st nx : Nat) (R : Cargo) :
     ∀ (pre : List Nat) (s : State), Good s i l1 l2 n st nx R → (∀ t ∈ pre, t < nx) →
       Good (idleRun j s pre).1 i l1 l2 n st nx R ∧ askTimes i.index n (idleRun j s pre).2 = [] := by
   intro pre
@@ -1055,11 +1096,11 @@ theorem idleRun_skip (j : Nat) (i : MyIntf) (l1 l2 : List MyIntf) (n : BList) (s
     exact hask'
 
 /-- the iteration at exactly the due time `nx` (before the probe's end) asks, and moves `nx` -/
-theorem idleRun_send (j : Nat) (i : MyIntf) (l1 l2 : List MyIntf) (n : BList) (st nx : Nat) (R : List RR) (s : State)
+theorem idleRun_send (j : Nat) (i : MyIntf) (l1 l2 : List MyIntf) (n : BList) (st nx : Nat) (R : Cargo) (s : State)
     (h : Good s i l1 l2 n st nx R) (hlive : nx < st + 750) (hfam : ∃ v4, i.hasFamily v4 = true) :
     Good (idleRun j s [nx]).1 i l1 l2 n st (nx + 250) R ∧ askTimes i.index n (idleRun j s [nx]).2 = [nx] ∧
     ∀ v4, i.hasFamily v4 = true → ∃ pkt, Out.send i.index v4 none pkt ∈ (iter s (idle nx j)).2 ∧
-      pkt.flags = 0 ∧ (n, TYPE_ANY) ∈ pkt.questions ∧ ∀ a ∈ R, a ∈ pkt.authorities := by
+      pkt.flags = 0 ∧ (n, TYPE_ANY) ∈ pkt.questions ∧ ∀ a ∈ R.recs, a ∈ pkt.authorities := by
   obtain ⟨hg, _, hsend⟩ := iter_idle_step s i l1 l2 n st nx R nx j h (Or.inr hlive)
   simp only [ge_iff_le, Nat.le_refl, ↓reduceIte] at hg
   have hs := hsend (Nat.le_refl _)
@@ -1073,7 +1114,7 @@ theorem idleRun_send (j : Nat) (i : MyIntf) (l1 l2 : List MyIntf) (n : BList) (s
   simp [idleRun, askTimes, hasked]
 
 /-- any iterations before the due time, then the iteration at the due time: one probe query -/
-theorem idleRun_phase (j : Nat) (i : MyIntf) (l1 l2 : List MyIntf) (n : BList) (st nx : Nat) (R : List RR) (s : State)
+theorem idleRun_phase (j : Nat) (i : MyIntf) (l1 l2 : List MyIntf) (n : BList) (st nx : Nat) (R : Cargo) (s : State)
     (pre : List Nat) (h : Good s i l1 l2 n st nx R) (hlive : nx < st + 750) (hfam : ∃ v4, i.hasFamily v4 = true)
     (hpre : ∀ t ∈ pre, t < nx) :
     Good (idleRun j s (pre ++ [nx])).1 i l1 l2 n st (nx + 250) R ∧ askTimes i.index n (idleRun j s (pre ++ [nx])).2 = [nx] := by
@@ -1084,10 +1125,10 @@ theorem idleRun_phase (j : Nat) (i : MyIntf) (l1 l2 : List MyIntf) (n : BList) (
 
 /-- any iterations before the due time, then the iteration at the due time when the probe is
     750 ms old: no probe query, the records are active -/
-theorem idleRun_final (j : Nat) (i : MyIntf) (l1 l2 : List MyIntf) (n : BList) (st nx : Nat) (R : List RR) (s : State)
+theorem idleRun_final (j : Nat) (i : MyIntf) (l1 l2 : List MyIntf) (n : BList) (st nx : Nat) (R : Cargo) (s : State)
     (pre : List Nat) (h : Good s i l1 l2 n st nx R) (hend : nx ≥ st + 750) (hpre : ∀ t ∈ pre, t < nx) :
     askTimes i.index n (idleRun j s (pre ++ [nx])).2 = [] ∧
-    ∀ a ∈ R, a.getName = n → ((idleRun j s (pre ++ [nx])).1.registry i.index).isActive a = true := by
+    ∀ a ∈ R.recs, a.getName = n → ((idleRun j s (pre ++ [nx])).1.registry i.index).isActive a = true := by
   obtain ⟨hg1, ha1⟩ := idleRun_skip j i l1 l2 n st nx R pre s h hpre
   obtain ⟨hno, hact⟩ := iter_idle_end _ i l1 l2 n st nx R nx j hg1 (Nat.le_refl _) hend
   rw [idleRun_append]
@@ -1111,7 +1152,7 @@ theorem announce_pair_creates (svc : Service) (i : MyIntf) (r0 : Registry) (now 
     (hprobe : svc.probe = true) (hne : addrsOn svc i v4 ≠ []) (ha : a ∈ uniqueRecords svc i r0 v4) (hname : a.getName = n)
     (hinactive : r0.isActive a = false) (hfresh : alookup n r0.probing = none) :
     ∃ p b, alookup n (prepareAnnounceReg svc i (prepareAnnounceReg svc i r0 true now j) false now j).probing = some p ∧
-      p.start = now + j ∧ p.next = now + j ∧ b ∈ p.records ∧ a.matchesRR b = true := by
+      p.start = now + j ∧ p.next = now + j ∧ b ∈ p.records ∧ a.matchesRR b = true ∧ svc.fullname ∈ p.waiting := by
   have a1 := prepareAnnounceReg_active svc i r0 true now j
   have a2 := prepareAnnounceReg_active svc i (prepareAnnounceReg svc i r0 true now j) false now j
   -- times: whatever probe of `n` exists at the end is fresh
@@ -1128,27 +1169,27 @@ theorem announce_pair_creates (svc : Service) (i : MyIntf) (r0 : Registry) (now 
       exact ⟨e1.trans hq.1, e2.trans hq.2⟩
   -- existence: by the family that lists `a`
   have hex : ∃ p b, alookup n (prepareAnnounceReg svc i (prepareAnnounceReg svc i r0 true now j) false now j).probing = some p ∧
-      b ∈ p.records ∧ a.matchesRR b = true := by
+      b ∈ p.records ∧ a.matchesRR b = true ∧ svc.fullname ∈ p.waiting := by
     cases v4 with
     | true =>
-      rcases prepare_registers_all svc i r0 true now j hprobe hne a ha with hact | ⟨p, hp, hany, _⟩
+      rcases prepare_registers_all svc i r0 true now j hprobe hne a ha with hact | ⟨p, hp, hany, hw⟩
       · rw [isActive_congr a1.1] at hact
         rw [hinactive] at hact; cases hact
       · rw [hname] at hp
-        obtain ⟨p2, hp2, _, _, hsub⟩ := prepareAnnounceReg_keeps svc i _ false now j n p hp
+        obtain ⟨p2, hp2, _, _, hsub, hwsub⟩ := prepareAnnounceReg_keeps svc i _ false now j n p hp
         obtain ⟨b, hb, hm⟩ := List.any_eq_true.mp hany
-        exact ⟨p2, b, hp2, hsub b hb, hm⟩
+        exact ⟨p2, b, hp2, hsub b hb, hm, hwsub _ hw⟩
     | false =>
       have ha' : a ∈ uniqueRecords svc i (prepareAnnounceReg svc i r0 true now j) false := by
         rw [uniqueRecords_congr a1.2]; exact ha
-      rcases prepare_registers_all svc i _ false now j hprobe hne a ha' with hact | ⟨p, hp, hany, _⟩
+      rcases prepare_registers_all svc i _ false now j hprobe hne a ha' with hact | ⟨p, hp, hany, hw⟩
       · rw [isActive_congr (a2.1.trans a1.1)] at hact
         rw [hinactive] at hact; cases hact
       · rw [hname] at hp
         obtain ⟨b, hb, hm⟩ := List.any_eq_true.mp hany
-        exact ⟨p, b, hp, hb, hm⟩
-  obtain ⟨p, b, hp, hb, hm⟩ := hex
-  exact ⟨p, b, hp, (htimes p hp).1, (htimes p hp).2, hb, hm⟩
+        exact ⟨p, b, hp, hb, hm, hw⟩
+  obtain ⟨p, b, hp, hb, hm, hw⟩ := hex
+  exact ⟨p, b, hp, (htimes p hp).1, (htimes p hp).2, hb, hm, hw⟩
 
 /-- what `send_unsolicited_response` keeps of the service while it walks the interfaces -/
 structure SvcSame (u : Service) (svc : Service) : Prop where
@@ -1195,9 +1236,14 @@ theorem unsolOnIntf_creates (now j : Nat) (u : Unsol) (i : MyIntf) (svc : Servic
     (ha : a ∈ uniqueRecords svc i (u.state.registry i.index) v4) (hname : a.getName = n)
     (hinactive : (u.state.registry i.index).isActive a = false) (hfresh : alookup n (u.state.registry i.index).probing = none)
     (hpn : KeysNodup (u.state.registry i.index).probing) (hnr : NoRen (u.state.registry i.index)) :
-    ∃ b, a.matchesRR b = true ∧ b.getName = n ∧ Watch (unsolOnIntf now j u i).state i.index n (now + j) (now + j) [b] := by
-  obtain ⟨p, b, hp, h1, h2, hb, hm⟩ := announce_pair_creates u.svc i (u.state.registry i.index) now j v4 a n
+    ∃ b, a.matchesRR b = true ∧ b.getName = n ∧ Watch (unsolOnIntf now j u i).state i.index n (now + j) (now + j)
+      ⟨[b], [svc.fullname], alookup n (u.state.registry i.index).active⟩ := by
+  obtain ⟨p, b, hp, h1, h2, hb, hm, hwt⟩ := announce_pair_creates u.svc i (u.state.registry i.index) now j v4 a n
     (hs.probe.trans hprobe) (by rw [hs.addrs]; exact hne) (by rw [hs.uniq]; exact ha) hname hinactive hfresh
+  rw [hs.full] at hwt
+  have hact2 : (prepareAnnounceReg u.svc i (prepareAnnounceReg u.svc i (u.state.registry i.index) true now j) false now j).active =
+      (u.state.registry i.index).active :=
+    (prepareAnnounceReg_active u.svc i _ false now j).1.trans (prepareAnnounceReg_active u.svc i _ true now j).1
   have hpn2 := announce_pair_pn u.svc i hpn now j
   have hnr2 := announce_pair_noRen u.svc i hnr now j
   have hbname : b.getName = n := by
@@ -1214,18 +1260,22 @@ theorem unsolOnIntf_creates (now j : Nat) (u : Unsol) (i : MyIntf) (svc : Servic
   split
   · have e := registry_setRegistry_self u.state i.index
       (prepareAnnounceReg u.svc i (prepareAnnounceReg u.svc i (u.state.registry i.index) true now j) false now j)
-    exact ⟨⟨p, by rw [e]; exact hp, h1, h2, fun x hx => by simp only [List.mem_cons, List.not_mem_nil, or_false] at hx; rw [hx]; exact hb⟩,
-      by rw [e]; exact hpn2, by rw [e]; exact hnr2⟩
+    exact ⟨⟨p, by rw [e]; exact hp, h1, h2,
+        fun x hx => by simp only [List.mem_cons, List.not_mem_nil, or_false] at hx; rw [hx]; exact hb,
+        fun w hw => by simp only [List.mem_cons, List.not_mem_nil, or_false] at hw; rw [hw]; exact hwt⟩,
+      by rw [e]; exact hpn2, by rw [e]; exact hnr2, by rw [e]; simp only [hact2]⟩
   · have e : ({ (u.state.setRegistry i.index
         { (prepareAnnounceReg u.svc i (prepareAnnounceReg u.svc i (u.state.registry i.index) true now j) false now j) with
           newTimers := [] }) with timers := u.state.timers ++
         (prepareAnnounceReg u.svc i (prepareAnnounceReg u.svc i (u.state.registry i.index) true now j) false now j).newTimers } : State).registry i.index =
         { (prepareAnnounceReg u.svc i (prepareAnnounceReg u.svc i (u.state.registry i.index) true now j) false now j) with
           newTimers := [] } := registry_setRegistry_self _ _ _
-    exact ⟨⟨p, by rw [e]; exact hp, h1, h2, fun x hx => by simp only [List.mem_cons, List.not_mem_nil, or_false] at hx; rw [hx]; exact hb⟩,
-      by rw [e]; exact hpn2, by rw [e]; exact hnr2⟩
+    exact ⟨⟨p, by rw [e]; exact hp, h1, h2,
+        fun x hx => by simp only [List.mem_cons, List.not_mem_nil, or_false] at hx; rw [hx]; exact hb,
+        fun w hw => by simp only [List.mem_cons, List.not_mem_nil, or_false] at hw; rw [hw]; exact hwt⟩,
+      by rw [e]; exact hpn2, by rw [e]; exact hnr2, by rw [e]; simp only [hact2]⟩
 
-theorem unsolOnIntf_other_keeps (now j : Nat) (u : Unsol) (i' : MyIntf) (idx : Nat) (n : BList) (st nx : Nat) (R : List RR)
+theorem unsolOnIntf_other_keeps (now j : Nat) (u : Unsol) (i' : MyIntf) (idx : Nat) (n : BList) (st nx : Nat) (R : Cargo)
     (hne : i'.index ≠ idx) (h : Watch u.state idx n st nx R) : Watch (unsolOnIntf now j u i').state idx n st nx R :=
   h.of_registry_eq (unsolOnIntf_registry_other now j u i' idx hne)
 
@@ -1237,7 +1287,8 @@ theorem sendUnsolicited_creates (s : State) (svc : Service) (now j : Nat) (i : M
     (ha : a ∈ uniqueRecords svc i (s.registry i.index) v4) (hname : a.getName = n)
     (hinactive : (s.registry i.index).isActive a = false) (hfresh : alookup n (s.registry i.index).probing = none)
     (hpn : KeysNodup (s.registry i.index).probing) (hnr : NoRen (s.registry i.index)) (hok : RerunsOk s) :
-    ∃ b, a.matchesRR b = true ∧ b.getName = n ∧ Watch (sendUnsolicited s svc now j).state i.index n (now + j) (now + j) [b] ∧
+    ∃ b, a.matchesRR b = true ∧ b.getName = n ∧ Watch (sendUnsolicited s svc now j).state i.index n (now + j) (now + j)
+        ⟨[b], [svc.fullname], alookup n (s.registry i.index).active⟩ ∧
       (sendUnsolicited s svc now j).state.intfs = s.intfs ∧ (sendUnsolicited s svc now j).state.stopped = s.stopped ∧
       RerunsOk (sendUnsolicited s svc now j).state ∧
       (∀ o ∈ (sendUnsolicited s svc now j).outs, ∀ idx n', asksFor idx n' o = false) := by
@@ -1283,7 +1334,8 @@ theorem sendUnsolicited_creates (s : State) (svc : Service) (now j : Nat) (i : M
   unfold sendUnsolicited
   simp only [hfold]
   refine ⟨?_, f3i.trans (f2i.trans f1i), f3s.trans (f2s.trans f1s), ?_, ?_⟩
-  · exact (hw2.of_registry_eq r3).congr rfl
+  · rw [r1] at hw2
+    exact (hw2.of_registry_eq r3).congr rfl
   · intro t pk k v hmem
     simp only [List.mem_append, List.mem_map] at hmem
     rcases hmem with hmem | ⟨_, _, hmem⟩
@@ -1336,7 +1388,7 @@ theorem registration_creates_probe (s : State) (i : MyIntf) (l1 l2 : List MyIntf
     (hinactive : (s.registry i.index).isActive a = false) (hfresh : alookup n (s.registry i.index).probing = none) :
     ∃ b, a.matchesRR b = true ∧ b.getName = n ∧
       Good (iter s { now := now, jitter := j, cmds := [.register svc] }).1 i l1 l2 n (now + j)
-        (if j = 0 then now + 250 else now + j) [b] ∧
+        (if j = 0 then now + 250 else now + j) ⟨[b], [svc.fullname], alookup n (s.registry i.index).active⟩ ∧
       (j ≠ 0 → asked i.index n (iter s { now := now, jitter := j, cmds := [.register svc] }).2 = false) ∧
       (j = 0 → ∀ v4', i.hasFamily v4' = true →
         ∃ pkt, Out.send i.index v4' none pkt ∈ (iter s { now := now, jitter := j, cmds := [.register svc] }).2 ∧
@@ -1346,7 +1398,8 @@ theorem registration_creates_probe (s : State) (i : MyIntf) (l1 l2 : List MyIntf
   obtain ⟨b, hm, hbn, hw, hintfs, hstop, hrer, houts⟩ := sendUnsolicited_creates
     { s with timers := s.timers.filter (· > now) } svc now j i l1 l2 ⟨hi.split, hi.other⟩ v4 a n hprobe hne ha hname hinactive hfresh
     hpn hnr hok
-  have hgood : Good (registerChecked { s with timers := s.timers.filter (· > now) } svc now j).1 i l1 l2 n (now + j) (now + j) [b] := by
+  have hgood : Good (registerChecked { s with timers := s.timers.filter (· > now) } svc now j).1 i l1 l2 n (now + j) (now + j)
+      ⟨[b], [svc.fullname], alookup n (s.registry i.index).active⟩ := by
     unfold registerChecked
     exact ⟨hstop.trans hrun, ⟨hintfs.trans hi.split, hi.other⟩, hw.congr rfl, hrer⟩
   have houts3 : ∀ o ∈ (registerChecked { s with timers := s.timers.filter (· > now) } svc now j).2, asksFor i.index n o = false := by
@@ -1358,7 +1411,7 @@ theorem registration_creates_probe (s : State) (i : MyIntf) (l1 l2 : List MyIntf
     · split at ho
       · simp at ho
       · exact notify_not_asks _ _ i.index n o ho
-  obtain ⟨hg, hno, hsend⟩ := loopTail_step _ i l1 l2 n (now + j) (now + j) [b] now j hgood (Or.inr (by omega))
+  obtain ⟨hg, hno, hsend⟩ := loopTail_step _ i l1 l2 n (now + j) (now + j) ⟨[b], [svc.fullname], alookup n (s.registry i.index).active⟩ now j hgood (Or.inr (by omega))
   have hnx : (if now ≥ now + j then now + 250 else now + j) = (if j = 0 then now + 250 else now + j) := by
     by_cases hj : j = 0
     · subst hj; simp
